@@ -5,6 +5,46 @@ HERE = os.path.dirname(os.path.dirname(os.path.abspath(__file__)))
 
 # id -> (level, technique, text, note, design_ref, engine)
 CHECKS = {
+ "C01": ("exploration", "proptest-generated child scripts x schedules x pipe capacities on a simulated kernel (link-time interposed libc); wait-for-cycle and call-budget oracle",
+         "The real Communicator code runs against a deterministic simulated kernel in which the generated case contains the child's I/O script, the interleaving at system-call granularity, pipe capacities/flavours and sizes; a hang becomes an assertion failure (wait-for cycle or call budget) that shrinks and replays.",
+         "Trusts the simulated pipe/poll model (differential-tested against real kernel pipes at every run) and the call budget as the definition of 'finishes'.", "DESIGN.md 2.1, 3 (C01)", "simk"),
+ "C02": ("exploration", "as C01 plus short-read/short-write plans; ground-truth byte record of the simulated child as oracle",
+         "Byte exactness in both directions, absence of unpiped streams, EOF placement and the text variant are compared with the simulator's record of what the scripted child really wrote and read, under generated short reads/writes.",
+         "Same trusted base as C01.", "DESIGN.md 3 (C02)", "simk"),
+ "C03": ("exploration", "proptest histories of size limits on the simulated kernel; per-read bound + concatenation = record",
+         "Histories of reads with changing size limits while the scripted child writes to both streams; every piece is bounded, pieces concatenate to the record, empty only at EOF (checked against simulator state at the instant of return).",
+         "Same trusted base as C01.", "DESIGN.md 3 (C03)", "simk"),
+ "C04": ("exploration", "proptest histories of time limits on a virtual clock; exact virtual-time bounds",
+         "Time limits from 0 to 10 years against silent / trickling / flooding / stdin-closing children on a virtual clock: lateness is bounded in calls entered after the deadline, TimedOut only within 1 ms of the deadline, never without a limit, continuity across resumed reads.",
+         "Same trusted base as C01; virtual clock advances by a per-call cost and by blocking polls.", "DESIGN.md 3 (C04)", "simk"),
+ "C06": ("exploration", "proptest-generated argv/env/cwd/identity; byte-for-byte self-report of a real helper child",
+         "Real children (helper hard-linked into a scratch directory, mode chosen by a sidecar file so that argv and environment stay under test) report argv, environ, cwd, uids/gids, pgid and /proc/self/exe; compared with the request and a last-wins model; NUL injection must be refused before fork.",
+         "Trusts the helper's self-report and /proc; runs as root so identity changes really happen.", "DESIGN.md 4 (C06)", "real"),
+ "C09": ("exploration", "proptest call histories against a reference model on a simulated process table",
+         "Histories of poll/wait/wait_timeout/pid/exit_status/signals/detach/external reaping over a fake-fork Popen whose waitpid/kill/clock are served by a simulator; results are compared with the decoded ground truth and the syscall log is audited for calls after the status is final.",
+         "Trusts the simulated waitpid/kill semantics (Linux status words, ECHILD after reaping).", "DESIGN.md 5 (C09)", "simproc"),
+ "C10": ("exploration", "same histories; audit of the simulated kill log",
+         "Every kill the crate issues is logged with the target's state; exactly one correct signal to the child's pid while the status is unknown, none afterwards, never another pid.",
+         "Same as C09.", "DESIGN.md 5 (C10)", "simproc"),
+ "C11": ("exploration", "durations x exit placements on a virtual clock; exact timing and call-count bounds",
+         "wait_timeout(d) and poll() run on a virtual clock: return instants, number of status checks, sleeps between checks and sleeps beyond the deadline are bounded exactly.",
+         "Same as C09; sleeping = interposed nanosleep/clock_nanosleep.", "DESIGN.md 5 (C11)", "simproc"),
+ "C12": ("exploration", "proptest (handle kind x child behaviour x drop point) with real children; wait-for-graph deadlock oracle + zombie audit",
+         "Each handle kind is dropped/completed at a generated point with a child that has pending output/input; a non-returning drop is judged structurally (thread in wait4(P), P blocked on a pipe only the harness holds), then waitpid(-1) must say ECHILD; detached drops must not wait or reap.",
+         "Trusts /proc/<pid>/syscall and fd tables (root).", "DESIGN.md 4 (C12), 2.3.4", "real"),
+ "C13": ("exploration", "proptest composition trees / stream kinds / sizes with real filter stages; non-commutative tagged transform as oracle",
+         "Stages wrap their input in distinct tags so the output identifies exactly which stages ran in which order between which end points; stderr multiset, exit status and zombie audit complete the oracle.",
+         "Trusts the helper stages.", "DESIGN.md 4 (C13)", "real"),
+ "C14": ("fault_enumeration", "full enumeration (n, k, cause, stdin kind, terminator, detached) with injected fork/pipe faults; wait-for-graph oracle + audits",
+         "Every failing position of every pipeline length with every stdin kind and terminator is run once per cause (missing program, injected fork failure; thorough: every pipe() ordinal); error value, nothing started afterwards, prompt return (structural deadlock oracle), zombie and descriptor audits.",
+         "Fault injection through link-time interposed fork/pipe; /proc readable.", "DESIGN.md 4 (C14)", "real"),
+ "C16": ("exploration", "proptest builder-call histories against a plain-data model; real helper child reports what it was given",
+         "A small model of the builder predicts either a refusal (panic) at a specific call/terminator or the child's self-report; catch_unwind observes refusals.",
+         "Trusts the helper's self-report.", "DESIGN.md 4 (C16)", "real"),
+ "C19": ("exploration", "proptest Unicode argument vectors; differential against real sh (dash, bash --posix)",
+         "The rendered command line is evaluated by a real shell with the program names bound to recording helpers; the recorded vectors must equal the originals (pipelines: in stage order).",
+         "dash and bash --posix stand for a POSIX shell.", "DESIGN.md 4 (C19)", "real"),
+
  "C20": ("exploration",
          "exhaustive + random generated argv vectors; round-trip through two reference Microsoft parsers (proptest, shrinking)",
          "Every argument string up to a length bound over the stated alphabet (and all pairs to a smaller bound) plus random longer vectors is assembled by the crate's own assemble_cmdline (extracted textually from /repo at build time, compiled on Linux against a UTF-16 shim) and parsed back by two independent implementations of Microsoft's rules; NUL anywhere must be rejected. Exhaustive to the bound, sampled beyond.",
